@@ -426,7 +426,7 @@ func runC08(c *core.Ctx) error {
 			for _, r := range cs.Registered {
 				types["@"+r] = rpTypeText(r, cs.Variant[r])
 			}
-			add(oaProgram{Family: "references:" + rpPositions(cs), Root: rpRootText(cs.Root), Types: types})
+			add(oaProgram{Family: "references:" + rpPositions(cs), Root: rpRootText(cs.Root, cs.Place), Types: types})
 		}})
 		res.Cleanup()
 		if err != nil {
